@@ -57,7 +57,7 @@ def main():
             meta = json.load(open(os.path.join(sd, "meta.json")))
         except (OSError, ValueError):
             pass
-        m = re.search(r"seed([234]?)-(C\d+)/out/(\w+)$", sd)
+        m = re.search(r"seed([2-9]?)-(C\d+)/out/(\w+)$", sd)
         prop = meta.get("property") or (m.group(2) if m else "C00")
         sid = "%s-%s%s" % (m.group(2) if m else prop, ("w%s-" % m.group(1)) if (m and m.group(1)) else "",
                            m.group(3) if m else os.path.basename(sd))
